@@ -156,7 +156,11 @@ pub fn finish(property: &str, violations: Vec<Violation>, known: &Known) -> i32 
         }
     }
     if code == 0 {
-        println!("OK property={property} held on everything explored");
+        if seen_known.is_empty() {
+            println!("OK property={property} held on everything explored");
+        } else {
+            println!("OK property={property}: nothing violated on everything explored other than the {} listed known finding(s) above", seen_known.len());
+        }
     }
     code
 }
